@@ -12,12 +12,30 @@ KINDS = {"result_dtype", "grad_dtype", "grad_shape", "f32_vs_f64"}
 
 def run(ctx):
     if ctx.replay:
-        return CC.replay_file(ctx, ctx.replay, KINDS)
+        import json
+        spec = (json.load(open(ctx.replay))["replay"] or {}).get("spec")
+        if spec == "NormDrop":
+            from .. import hist_common as HC
+            from . import c13
+            return HC.replay_file(ctx, ctx.replay, {"dtype"}, "NormDrop", c13.RP, set_consts=("Acts",), raw_consts=("StatsSet",))
+        return CC.replay_file(ctx, ctx.replay, KINDS, replayer=CC.NN_REPLAYER if spec == "NNCatalog" else ("replay_catalog", "CatalogReplayer"))
     rep = core.Report(ctx, "model_checking", assumptions=[
         "typing rule of the specification: all operands float32 -> float32, all float64 -> float64, a Python scalar keeps the tensor's dtype; mixed dtypes unconstrained",
         "single-precision agreement is decided by comparing the float32 run with the float64 run of the same case"])
     rep.rule = "every catalogue case x {float32, float64} x upstream gradient of the same and of the other dtype"
     cases = CC.tensor_cases(ctx, rep, with_grad=True)
     CC.replay(ctx, rep, cases, KINDS, cross_g=True)
+    # nn ops / layers / losses (typing layer of NNCatalog)
+    ncases = CC.nn_cases(ctx, rep, with_grad=True)
+    CC.replay(ctx, rep, ncases, KINDS, cross_g=True, replayer=CC.NN_REPLAYER, spec="NNCatalog")
+    # layers with state: dtype of outputs and buffers over call histories (NormDrop)
+    from .. import hist_common as HC
+    from ..vlib import tlc
+    from . import c13
+    for dt in ("float32", "float64"):
+        consts = dict(Layer="bn", Batches=c13.B2, NC=2, Momentum=[[1, 2]], Affine=True, Track=True, Gamma=[[2, 1], [-1, 1]], Beta=[[1, 1], [3, 1]],
+                      StatsSet=c13.STATS, PDrop=[1, 2], Inputs=[], GradsIn=[], MaxHist=4, Acts={"mode", "fwd"})
+        mx, table, c = HC.emit(rep, "NormDrop", "bn-dtype-" + dt, consts)
+        HC.replay_all(ctx, rep, mx, table, dict(c, StatsSet=str(c["StatsSet"])), {"dtype"}, c13.RP, "NormDrop", label="bn-" + dt + ":", rkw=dict(dtype=dt), procs=8)
     rep.exhaustive = True
     return rep.finish()
